@@ -104,6 +104,16 @@ def mutants(args):
             shutil.rmtree(scratch, ignore_errors=True)
     # evidence of the unchanged tree is rewritten by the mutant runs: restore it is the caller's job
     out = os.path.join(VERIF, "evidence", "selftest-mutants.json")
+    if props and os.path.exists(out):
+        # a partial re-run replaces its own rows and keeps the others
+        try:
+            old = json.load(open(out)).get("rows", [])
+        except ValueError:
+            old = []
+        mine = set(r["mutant"] for r in rows)
+        rows = sorted([r for r in old if r["mutant"] not in mine and r["property"] not in props] + rows,
+                      key=lambda r: (r["mutant"].startswith("seeded/"), r["mutant"]))
+        missed = sum(1 for r in rows if r["result"] != "caught")
     with open(out, "w") as fobj:
         json.dump({"rows": rows, "missed": missed}, fobj, indent=1, sort_keys=True)
     print("%d mutants, %d not caught" % (len(rows), missed))
